@@ -111,7 +111,7 @@ From TarpcV Require Client Server Chain ChainSpec ChainFuel.
    runs out of the fuel the model gives it (Chain.cfuel for the dispatch, the fuel of
    Server.poll_fuel with tfuel = length of the inbound side of the link for the stream).  The
    bounded loops of the model are therefore total on the links of a chain, as they are on the
-   scripted transport (C14_client_total / C14_server_total). *)
+   scripted transport (C14_client_poll_total / C14_server_poll_total). *)
 Theorem C14_chain_poll_fuel : forall (d : nat) (ops : list Chain.cop) (l : list Chain.cobs),
   In l (fst (Chain.run d ops)) ->
   forall i, ~ In (Chain.KDisp i Client.DFuel) l /\ ~ In (Chain.KStream i Chain.KFuel) l.
@@ -132,8 +132,10 @@ Example C14_chain_fuel_nonvacuous :
   /\ Chain.cfuel_ok 1 [Chain.SettleAll] [[Chain.KCGauge 0 0 0; Chain.KSGauge 0 0 0]] = true.
 Proof. vm_compute. repeat split; reflexivity. Qed.
 
-(* the rounds half is ChainSpec.stmt_chain_rounds: OPEN, checked only (Chaincheck's cfuel_ok on
-   every real trace).  The original ChainSpec.stmt_chain_fuel (which also demands that no SettleAll runs out of
+(* the rounds half is ChainSpec.stmt_chain_rounds: PROVED (ChainRounds5.chain_rounds, restated as
+   C04_chain_rounds in Properties/C04.v; with a clock-range hypothesis instead of the observational
+   one: C04_chain_rounds_clock); Chaincheck's cfuel_ok also runs on every real trace.
+   The original ChainSpec.stmt_chain_fuel (which also demands that no SettleAll runs out of
    rounds, unconditionally) is FALSE in the model: after a clock jump beyond the DelayQueue
    range (2^36 ms, the boundary `dq_env` of the trusted base) the timer-order oracle of a server
    disagrees, Server.s_bad is sticky, KOracle is an event of every later round, no later round
